@@ -171,6 +171,7 @@ def P(pid):
         R = [
             ('RF-F panic-site census', rf_panic.rule_panic_census, 90),
             ('RF-F allocation bounded by input size', rf_panic.rule_alloc_bounded, 15),
+            ('RF-F work bounded by input size (counting loops)', rf_panic.rule_work_bounded, 20),
         ]
         meta['explanation'] = ('Every panic-capable MIR site (bounds / overflow asserts, slice range indexing, unwrap/expect, CtOption::unwrap, '
                                'copy_from_slice, explicit panics) in every function reachable from the 21 untrusted-input entry points and the derived '
@@ -320,7 +321,7 @@ CONTROLS = {
     'C05': ['seeded/C05-a/patch.diff', 'seeded/C05-b/patch.diff', 'seeded/C05-c/patch.diff'],
     'C06': ['seeded/C06-a/patch.diff', 'seeded/C06-b/patch.diff', 'seeded/C06-c/patch.diff'],
     'C07': ['seeded/C07-a/patch.diff', 'seeded/C07-b/patch.diff', 'seeded/C07-c/patch.diff'],
-    'C08': ['selftest/mutants/unfix-928b770.patch', 'selftest/mutants/unfix-05eab20.patch', 'selftest/mutants/unfix-6597d81.patch', 'seeded/C08-a/patch.diff', 'seeded/C08-b/patch.diff', 'seeded/C08-c/patch.diff'],
+    'C08': ['selftest/mutants/unfix-928b770.patch', 'selftest/mutants/unfix-05eab20.patch', 'selftest/mutants/unfix-6597d81.patch', 'seeded/C08-a/patch.diff', 'seeded/C08-b/patch.diff', 'seeded/C08-c/patch.diff', 'selftest/mutants/work-unbounded-L.patch'],
     'C09': ['selftest/mutants/unfix-928b770.patch', 'selftest/mutants/unfix-4e31b69.patch', 'seeded/C09-a/patch.diff', 'seeded/C09-b/patch.diff', 'seeded/C09-c/patch.diff'],
     'C10': ['seeded/C10-a/patch.diff', 'seeded/C10-b/patch.diff', 'seeded/C10-c/patch.diff'],
     'C11': ['seeded/C11-a/patch.diff', 'seeded/C11-b/patch.diff', 'seeded/C11-c/patch.diff'],
